@@ -362,6 +362,43 @@ func init() {
 					c07Input(c, i, []byte(b.String()), "long_tokens", r)
 				}
 				i++
+				// long string tokens whose lengths are multiples of a piece size, read in pieces that
+				// start anew at every token: the buffer passes through the same lengths for each token
+				if c.Mine(i) {
+					r := c.Rand(i)
+					piece := []int{1100, 1500, 2048, 2500, 3000, 4000}[r.Intn(6)]
+					var b strings.Builder
+					var cuts []int
+					for t, m := 0, 2+r.Intn(3); t < m; t++ {
+						b.WriteString("print ")
+						start := b.Len()
+						ln := piece*(2+r.Intn(4)) + []int{0, 0, 1, 2, 7}[r.Intn(5)] // token text incl. quotes
+						if ln < 4098 {
+							ln += piece * 2
+						}
+						b.WriteString("\"" + strOfLen(ln-2, nil) + "\"")
+						for off := start + piece; off < start+ln; off += piece {
+							cuts = append(cuts, off)
+						}
+						cuts = append(cuts, b.Len())
+						b.WriteString("\n")
+					}
+					src := []byte(b.String())
+					var st []mon.Step
+					prev := 0
+					for _, cpos := range cuts {
+						if cpos > prev && cpos-prev <= 4096 {
+							st = append(st, mon.Step{N: cpos - prev})
+							prev = cpos
+						}
+					}
+					c.Begin(i)
+					whole := wholeOutcome(src, "in.bcl")
+					if whole.pan == "" {
+						c07Try(c, src, whole, st, "pieces_restarting_at_each_long_token")
+					}
+				}
+				i++
 			}
 			n := int64(c.Pick(4000, 60000))
 			for k := int64(0); k < n; k++ {
